@@ -93,23 +93,27 @@ void f_strwrap (void) {
 #ifdef F_REPEAT_STRING
 void f_repeat_string (void) {
   char *str;
-  size_t repeat, len;
+  size_t repeat, len, max_len;
+  int64_t count;
   char *ret, *p;
   size_t i;
 
-  repeat = (sp--)->u.number;
-  if (repeat <= 0)
+  count = (sp--)->u.number;
+  len = SVALUE_STRLEN (sp);
+  if (count <= 0 || len == 0)
     {
       free_string_svalue (sp);
       sp->type = T_STRING;
       sp->subtype = STRING_CONSTANT;
       sp->u.string = "";
     }
-  else if (repeat != 1)
+  else if (count != 1)
     {
       str = sp->u.string;
-      len = SVALUE_STRLEN (sp);
-      if (len * repeat > (size_t)CONFIG_INT (__MAX_STRING_LENGTH__))
+      repeat = (size_t)count;
+      max_len = (size_t)CONFIG_INT (__MAX_STRING_LENGTH__);
+      /* compare the factors first so that len * repeat cannot wrap around */
+      if (repeat > max_len || len > max_len || len * repeat > max_len)
         error ("repeat_string: String too large.\n");
 //      repeat = CONFIG_INT(__MAX_STRING_LENGTH__) / len;
       p = ret = new_string (len * repeat, "f_repeat_string");
